@@ -398,6 +398,63 @@ def replace_point(job):
     return st
 
 
+def tight_env_point(job):
+    """An environment that leaves only a few hundred to a few thousand bytes of the kernel's budget: whatever xargs decides - smaller
+    command lines, or refusing with a diagnostic because nothing fits - it must not build a command line that exec rejects."""
+    free, stack, seed = job
+    st = Stats()
+    wd = common.mkscratch("C06t")
+    try:
+        budget = max(min(6 * MIB, stack // 4), 128 * KIB)
+        log = os.path.join(wd, "rec.log")
+        env = common.clean_env({"VERIF_REC_LOG": log, "VERIF_REC_MODE": "compact"})
+        used = sum(len(k_) + len(v_) + 2 + 8 for k_, v_ in env.items())
+        target = budget - free
+        i = 0
+        while used < target - 130000:
+            env["VERIF_E%d" % i] = "x" * 100000
+            used += len("VERIF_E%d" % i) + 100000 + 2 + 8
+            i += 1
+        rest = target - used - len("VERIF_LAST") - 2 - 8
+        if rest > 0:
+            env["VERIF_LAST"] = "x" * rest
+        args = [b"a%05d" % j for j in range(300)]
+        data = b"".join(a + b"\n" for a in args)
+
+        def pre():
+            soft, hard = resource.getrlimit(resource.RLIMIT_STACK)
+            resource.setrlimit(resource.RLIMIT_STACK, (stack, hard))
+        try:
+            rc, out, err, to = common.run_cmd([common.XARGS, common.REC], input=data, env=env, cwd=wd, timeout=120, preexec_fn=pre)
+        except common.Inconclusive:
+            st.inc("tight_environment_points_where_xargs_itself_could_not_be_started")
+            return st
+        st.inc("evaluations")
+        st.inc("tight_environment_points")
+        st.add("distinct", ("tight-env", free, stack))
+        inv = xref.read_reclog(log, compact=True)
+        delivered = sum(argc for _, (argc, nbytes, ch, maxlen) in inv)
+        problems = []
+        if rc == 126 or b"too long" in err:
+            problems.append("xargs built a command line that exec rejected (exit %r): %r" % (rc, err[-160:]))
+        elif rc in (101, 134, -6, -11):
+            problems.append("xargs crashed: exit %r %r" % (rc, err[-200:]))
+        elif rc == 0:
+            if delivered != len(args):
+                problems.append("exit 0 but %d of %d arguments delivered" % (delivered, len(args)))
+            st.inc("tight_environment_points_served")
+        elif rc == 1 and err.strip():
+            st.inc("tight_environment_points_refused_with_a_diagnostic")
+        else:
+            problems.append("exit status %r, stderr %r" % (rc, err[-160:]))
+        if problems:
+            st.violate("os-limit", None, {"point": "environment leaving %d bytes of a %d-byte budget" % (free, budget), "exit": rc, "stderr": err[-300:],
+                                          "problems": problems, "invocations": len(inv)}, {"tight_env_free": free, "stack": stack})
+    finally:
+        common.force_rmtree(wd)
+    return st
+
+
 def run(ctx):
     ctx.rule = ("grid of argument count (1..4e5 quick, ..1e6 thorough) x length distribution (1 byte, 2, 10, log-uniform 1..4096, "
                 "near the 131071-byte per-argument limit, one over-long argument) x environment size (1KB..1MB) x RLIMIT_STACK "
@@ -417,6 +474,10 @@ def run(ctx):
         pts = [json.load(open(ctx.replay))["replay"]["point"]]
     ctx.pmap(run_point, [(p, ctx.seed) for p in pts], nproc=8)
     if not ctx.replay:
+        frees = [300, 1500, 3000, 5000, 6100, 6200, 7000, 9000, 20000] if ctx.quick else [200, 300, 600, 1000, 1500, 2000, 3000, 4000, 5000, 6000, 6100, 6144, 6150, 6200,
+                                                                                           6500, 7000, 8000, 9000, 12000, 20000, 50000]
+        ctx.pmap(tight_env_point, [(f_, stk, ctx.seed) for f_ in frees for stk in ((8 * MIB,) if ctx.quick else (8 * MIB, 512 * KIB, 64 * MIB))], nproc=8)
+        ctx.require("tight_environment_points", 5)
         ctx.pmap(replace_point, [(rp_, ctx.seed) for rp_ in REPLACE_POINTS], nproc=8)
         ctx.require("replace_mode_points_that_fit", 2)
         ctx.require("replace_mode_points_too_large_after_substitution", 2)
